@@ -44,6 +44,10 @@ def variants(quick):
         for h in (False, True):
             V.append({'method': 'SN', 'net': 'sn2', 'opts': {'gumbel': g, 'hard': h}})
     V.append({'method': 'SN', 'net': 'sn2', 'opts': {'full_cost': True}})
+    # additions that have the same operand nodes, twice and three times (module names derived from the operands collide)
+    V.append({'method': 'MPS', 'net': 'net2d', 'opts': {'per_channel': False, 'radd': 2}})
+    V.append({'method': 'MPS', 'net': 'net2d', 'opts': {'per_channel': True, 'radd': 3, 'gumbel': True}})
+    V.append({'method': 'PIT', 'net': 'net2d', 'opts': {'radd': 3}})
     return V
 
 
